@@ -117,6 +117,12 @@ phases(look)
 local okm = ch.send ~= nil and dgetinfo(ch.send, "S").what == "Go" and dgetinfo(("").rep, "S").what == "Go"
 ch:send(7)
 local ok, v = ch:receive()
+-- hidden state of the libraries: the random source and the standard files are this state's own
+math.randomseed(4242)
+local rs = 0
+for i = 1, 200 do rs = rs + math.random(1000) end
+lines[#lines + 1] = "random after randomseed(4242) : " .. rs .. " " .. math.random(1000000)
+lines[#lines + 1] = "standard files usable : " .. tostring(io.stdout:write("") ~= nil) .. " " .. tostring(io.stderr:write("") ~= nil) .. " " .. io.type(io.stdout) .. " " .. io.type(io.stderr) .. " " .. io.type(io.stdin)
 lines[#lines + 1] = "use : " .. tostring(okm) .. " " .. tostring(ok) .. " " .. tostring(v) .. " " .. ("x"):rep(3) .. " " .. #lines
 return concat(lines, "\n"), foreign, #lines
 `
@@ -175,6 +181,13 @@ phases(change)
 dgetmt(ch).__index["myop_" .. TAG] = function(c, x) c:send(x); return TAG end
 channel["helper_" .. TAG] = function() return TAG end
 string["trim_" .. TAG] = function(s) return s end
+-- hidden state: reseed and draw, try to close the standard files
+math.randomseed(7)
+for i = 1, 10 do math.random() end
+pcall(function() return io.stdout:close() end)
+pcall(function() return io.stderr:close() end)
+pcall(io.close)
+pcall(function() return io.stdin:close() end)
 return n
 `
 
@@ -243,6 +256,23 @@ func runLib(spec *LibSpec) Result {
 		}
 		obs.Ref = digestText(ref)
 		obs.Obs, obs.Who = nil, nil
+		// a seeded sequence continues as it does alone, whatever other states draw in between
+		draw := func(L *lua.LState, src string) string {
+			if err := L.DoString(src); err != nil {
+				return "error " + trunc(err.Error(), 100)
+			}
+			v := lua.LVAsString(L.Get(-1))
+			L.Pop(1)
+			return v
+		}
+		const p1 = `math.randomseed(42) return math.random(1000000) .. "," .. math.random(1000000) .. "," .. math.random()`
+		const p2 = `return math.random(1000000) .. "," .. math.random(5, 500000) .. "," .. math.random()`
+		lone := lua.NewState()
+		randAlone := draw(lone, p1) + ";" + draw(lone, p2)
+		lone.Close()
+		seq := lua.NewState() // created before the mutator; nothing else runs in it
+		defer seq.Close()
+		randSeen := draw(seq, p1)
 		// sequential: A changes everything it can reach
 		a := lua.NewState()
 		obs.Tables = mutate(a, spec.Tag)
@@ -261,6 +291,13 @@ func runLib(spec *LibSpec) Result {
 		fresh2 := lua.NewState()
 		inspect(fresh2, "created-after-mutator-closed")
 		fresh2.Close()
+		randSeen += ";" + draw(seq, p2)
+		if randSeen == randAlone {
+			obs.Obs, obs.Who = append(obs.Obs, obs.Ref), append(obs.Who, "seeded-random-across-mutator")
+		} else {
+			obs.Obs, obs.Who = append(obs.Obs, digestText("random:"+randSeen)), append(obs.Who, "seeded-random-across-mutator")
+			obs.Diff = append(obs.Diff, "seeded sequence alone "+randAlone+" / with another state drawing in between "+randSeen)
+		}
 		// concurrent: mutators and inspectors at the same time
 		var wg sync.WaitGroup
 		for m := 0; m < spec.Mutators; m++ {
@@ -313,6 +350,60 @@ func runLib(spec *LibSpec) Result {
 		}
 	}
 	r := Result{Status: "ok", Lib: obs, Errs: errs}
+	if len(errs) > 0 {
+		r.Status = "error"
+		r.Msg = strings.Join(errs, "; ")
+	}
+	return r
+}
+
+// ---------- channel.make with any size, next to another state ("make" jobs) ----------
+
+type MakeSpec struct {
+	Sizes     []int64 `json:"sizes"`
+	TimeoutMs int     `json:"timeout_ms"`
+}
+
+type MakeObs struct {
+	Sizes       []int64 `json:"sizes"`
+	Ok          []bool  `json:"ok"`
+	NeighbourOK bool    `json:"neighbour_ok"`
+}
+
+// Each size goes through pcall(channel.make, n) in state A while state B computes in another
+// goroutine. A size no machine can hold must come back as a catchable error: Go "throws" when it
+// cannot map a channel buffer, which would end the whole process (then this job is a crash).
+func runMake(spec *MakeSpec) Result {
+	obs := &MakeObs{}
+	var wg sync.WaitGroup
+	wg.Add(1)
+	go func() {
+		defer wg.Done()
+		B := lua.NewState()
+		defer B.Close()
+		if err := B.DoString("local s = 0 for i = 1, 200000 do s = s + i % 7 end return s"); err == nil {
+			obs.NeighbourOK = lua.LVAsNumber(B.Get(-1)) == 599997
+		}
+	}()
+	A := lua.NewState()
+	defer A.Close()
+	var errs []string
+	for _, n := range spec.Sizes {
+		A.Push(A.GetGlobal("pcall"))
+		A.Push(A.GetField(A.GetGlobal("channel"), "make"))
+		A.Push(lua.LNumber(n))
+		if err := A.PCall(2, 2, nil); err != nil {
+			errs = append(errs, trunc(err.Error(), 200))
+			continue
+		}
+		ok := A.Get(-2) == lua.LTrue
+		_, isch := A.Get(-1).(lua.LChannel)
+		A.Pop(2)
+		obs.Sizes = append(obs.Sizes, n)
+		obs.Ok = append(obs.Ok, ok && isch)
+	}
+	wg.Wait()
+	r := Result{Status: "ok", Make: obs, Errs: errs}
 	if len(errs) > 0 {
 		r.Status = "error"
 		r.Msg = strings.Join(errs, "; ")
